@@ -446,7 +446,6 @@ def stream_host(ctx, r):
         else:
             lines.append("parse 1 %s -" % tok(r.choice(["http://x/", "a://x/", "file://x/"])))
             lines.append("set 1 %s %s" % (r.choice(["host", "hostname"]), tok(d)))
-    lines.append("icuinfo")
     return [Case(lines[i:i + 1000], "host") for i in range(0, len(lines), 1000)]
 
 WIN_PATHS = ["C:\\", "C:\\a\\b", "c:/a/b", "C:\\a\\..\\b", "C:\\..", "C:a", "C:", "\\\\host\\share\\p", "\\\\host\\share", "\\\\host\\", "\\\\host", "//host/share/x",
